@@ -9,6 +9,9 @@ KINDS = ['parse', 'parse_strict', 'errors', 'pep8', 'tokenize', 'refactor', 'loa
 
 def run_call(call):
     kind, v, text = call
+    if kind == 'all':
+        # every kind of call on one text (light sibling histories of C18)
+        return [run_call([k, v, text]) for k in KINDS if k != 'load']
     try:
         if kind == 'tokenize':
             return [[t.type.name, t.string, list(t.start_pos), t.prefix] for t in tokenize(text, version_info=parse_version_string(v))]
